@@ -842,6 +842,23 @@ example : ProgOKModule (fun _ => .data 3) []
     · exact ⟨declBlog, by simp [lookupD], by simp [Decl.allNames, declBlog, FieldAnn.allNames, names], by simp [declBlog]⟩
     · exact ⟨declB, by simp [lookupD], by simp [Decl.allNames, declB, FieldAnn.allNames, names], by simp [declB]⟩
 
+/-- a parsed function made inside another function (`isLocal`), declared before the class it names:
+parameter `a: 'B'`, `-> List['B']`, `*args: 'B'`, `**kw: Optional['B']` (fields 0-3) -/
+def progLocalFunc : List Op :=
+  [.defn 100 { fields := [(0, .str 7 (.name 1)), (1, .plain (.list (.quoted 1 1))),
+                          (2, .str 8 (.list (.name 1))), (3, .plain (.dict (.union [.quoted 2 1, .none])))],
+               isLocal := true, isFunc := true },
+   .defn 1 declB,
+   .use 100 [(0, .dict [(50, .int 1)]), (1, .list [.dict [(50, .int 2)]]),
+             (2, .list [.dict [(50, .int 3)], .dict []]), (3, .dict [(60, .none), (61, .dict [(50, .int 4)])])],
+   .use 100 [(1, .list [.dict [(50, .int 2)]])]]
+
+/-- every slot of the local function is resolved at the first call and stays resolved, although the
+ForwardRef objects of a local parser are un-evaluated again (fixes/C17-local-func-slots.patch made the
+code do what the model does: *args / return types are rewritten together with the fields) -/
+example : (run Cfg.fixed leaf0 chk0 10 State.init progLocalFunc).map Outcome.kind = [0, 0] ∧
+          (specRun leaf0 chk0 10 [] progLocalFunc).map Outcome.kind = [0, 0] := by decide
+
 def declBf : Decl := { fields := [(50, .plain .int)], isLocal := true, bound := false }
 def declAf : Decl := { fields := [(0, .plain (.list (.name 1))), (1, .plain (.union [.quoted 1 0, .none]))],
                        isLocal := true, bound := false }
